@@ -20,19 +20,21 @@ Proof.
 Qed.
 
 (* a -> a' with the announced releases L: every announced identifier was in use, none is announced twice, and
-   afterwards exactly the announced ones have turned free — or everything is free (the wholesale reset) *)
-Definition accp (g : cfg) (a a' : alloc) (L : list N) : Prop :=
+   afterwards exactly the announced ones have turned free — or, when the flag rs allows it, everything is free
+   (the wholesale reset) *)
+Definition accp (rs : bool) (g : cfg) (a a' : alloc) (L : list N) : Prop :=
   WFa g a -> WFa g a' /\ NoDup L /\ (forall id, In id L -> a_is_used a id = true) /\
-  ((forall id, a_is_used a' id = a_is_used a id && negb (inb id L)) \/ (forall id, a_is_used a' id = false)).
+  ((forall id, a_is_used a' id = a_is_used a id && negb (inb id L)) \/ (rs = true /\ forall id, a_is_used a' id = false)).
+(* rs = false: no wholesale reset in this call *)
 
-Lemma accp_refl g a : accp g a a [].
+Lemma accp_refl rs g a : accp rs g a a [].
 Proof. intro HW. split; [exact HW|]. split; [constructor|]. split; [intros id []|]. left. intro id. cbn. now rewrite andb_true_r. Qed.
 
-Lemma accp_trans g a a1 a2 L1 L2 : accp g a a1 L1 -> accp g a1 a2 L2 -> accp g a a2 (L1 ++ L2).
+Lemma accp_trans rs g a a1 a2 L1 L2 : accp rs g a a1 L1 -> accp rs g a1 a2 L2 -> accp rs g a a2 (L1 ++ L2).
 Proof.
   intros H1 H2 HW. destruct (H1 HW) as (W1 & D1 & U1 & F1). destruct (H2 W1) as (W2 & D2 & U2 & F2).
   assert (Hdisj : forall id, In id L2 -> a_is_used a id = true /\ ~ In id L1).
-  { intros id Hin. pose proof (U2 id Hin) as Hu. destruct F1 as [F1|F1].
+  { intros id Hin. pose proof (U2 id Hin) as Hu. destruct F1 as [F1|[_ F1]].
     - rewrite F1 in Hu. apply andb_true_iff in Hu as [Hu Hn]. split; [exact Hu|]. apply negb_true_iff in Hn. now apply inb_false.
     - rewrite F1 in Hu. discriminate. }
   split; [exact W2|]. split.
@@ -41,61 +43,61 @@ Proof.
     - apply IH; [exact Hd|]. intros id Hin. destruct (Hdisj id Hin) as [A B]. split; [exact A|]. intro K. apply B. now right. }
   split.
   { intros id Hin. apply in_app_iff in Hin as [Hin|Hin]; [now apply U1|now apply Hdisj]. }
-  destruct F2 as [F2|F2]; [|now right]. destruct F1 as [F1|F1].
+  destruct F2 as [F2|F2]; [|now right]. destruct F1 as [F1|[R1 F1]].
   - left. intro id. rewrite F2, F1, inb_app, negb_orb. now rewrite andb_assoc.
-  - right. intro id. rewrite F2, F1. reflexivity.
+  - right. split; [exact R1|]. intro id. rewrite F2, F1. reflexivity.
 Qed.
 
-Lemma release_acc g a id a' : a_is_used a id = true -> pm_release a id = Ok a' -> accp g a a' [id].
+Lemma release_acc rs g a id a' : a_is_used a id = true -> pm_release a id = Ok a' -> accp rs g a a' [id].
 Proof.
   intros Hu Hr HW. destruct (release_used_spec g a id a' HW Hu Hr) as [W' Hs].
   split; [exact W'|]. split; [constructor; [intros []|constructor]|]. split; [intros x [<-|[]]; exact Hu|].
   left. intro y. rewrite Hs. unfold inb. cbn. rewrite orb_false_r. reflexivity.
 Qed.
 
-Lemma clear_acc g a : accp g a (pm_clear a) [].
+Lemma clear_acc g a : accp true g a (pm_clear a) [].
 Proof.
   intros (W & E1 & E2 & E3). split.
   - destruct W as (W1 & W2 & _). unfold pm_clear, a_clear, WFa, WF. cbn. repeat split; try assumption; lia.
-  - split; [constructor|]. split; [intros id []|]. right. intro id. unfold pm_clear, a_clear, a_is_used. cbn.
+  - split; [constructor|]. split; [intros id []|]. right. split; [reflexivity|]. intro id. unfold pm_clear, a_clear, a_is_used. cbn.
     destruct ((a_lo a <=? id) && (id <=? a_hi a)) eqn:E; [|reflexivity]. cbn [andb]. unfold contains. cbn [fst snd]. now rewrite E.
 Qed.
 
 Lemma released_app a b : released (a ++ b) = released a ++ released b. Proof. unfold released. apply flat_map_app. Qed.
 
-Lemma drain_release_acc g ids : forall a a' e, drain_release a ids = Ok (a', e) -> accp g a a' (released e).
+Lemma drain_release_acc rs g ids : forall a a' e, drain_release a ids = Ok (a', e) -> accp rs g a a' (released e).
 Proof.
   induction ids as [|i t IH]; intros a a' e; cbn [drain_release].
   - intro H; inversion H; subst. apply accp_refl.
   - unfold pm_is_used. destruct (a_is_used a i) eqn:Eu; [|apply IH].
     destruct (pm_release a i) as [a1|] eqn:Er; cbn [bindr]; [|discriminate].
     destruct (drain_release a1 t) as [[a2 e2]|] eqn:Ed; cbn [bindr]; [|discriminate]. intro H; inversion H; subst.
-    change (released (EReleased i :: e2)) with ([i] ++ released e2). apply (accp_trans g a a1 a'); [now apply release_acc|now apply IH].
+    change (released (EReleased i :: e2)) with ([i] ++ released e2). apply (accp_trans rs g a a1 a'); [now apply release_acc|now apply IH].
 Qed.
 
 (* the unguarded releases of send_stored: the dropped packets are stored ones, so their identifiers are in use *)
-Lemma release_all_acc g SA UA V D : forall a S PA PB PC a',
+Lemma release_all_acc rs g SA UA V D : forall a S PA PB PC a',
   own8 g a S PA PB PC SA UA V -> (forall q, In q D -> In q S) -> NoDup (sids D) ->
-  release_all a (sids D) = Ok a' -> accp g a a' (sids D).
+  release_all a (sids D) = Ok a' -> accp rs g a a' (sids D).
 Proof.
   induction D as [|d D IH]; intros a S PA PB PC a' HO HDS HD; cbn [sids map release_all].
   - intro H; inversion H; subst. apply accp_refl.
   - destruct (pm_release a (k_pid d)) as [a1|] eqn:Er; cbn [bindr]; [|discriminate]. intro Hra.
     pose proof (o_used _ _ _ _ _ _ _ _ _ HO d (HDS d (or_introl eq_refl))) as Hu.
     cbn [sids map] in HD. inversion HD as [|x xs Hn HD']; subst.
-    change (k_pid d :: map k_pid D) with ([k_pid d] ++ sids D). apply (accp_trans g a a1 a'); [now apply release_acc|].
+    change (k_pid d :: map k_pid D) with ([k_pid d] ++ sids D). apply (accp_trans rs g a a1 a'); [now apply release_acc|].
     apply (IH a1 _ _ _ _ a' (own_drop1 g _ _ _ _ _ _ _ _ (k_pid d) a1 HO Hu Er)); [|exact HD'|exact Hra].
     intros q Hq. apply filter_In. split; [apply HDS; now right|]. apply negb_true_iff, N.eqb_neq. intro E. apply Hn. rewrite <- E. now apply sids_in.
 Qed.
 
 (* ---- calls ---- *)
-Definition ACC (g : cfg) (c : conn) (r : res (conn * list event)) : Prop :=
-  match r with Ok (c', e) => accp g (c_pid c) (c_pid c') (released e) | Panic _ => True end.
+Definition ACC (rs : bool) (g : cfg) (c : conn) (r : res (conn * list event)) : Prop :=
+  match r with Ok (c', e) => accp rs g (c_pid c) (c_pid c') (released e) | Panic _ => True end.
 
 (* calls that neither touch the allocator nor announce anything *)
 Definition QR (c : conn) (r : res (conn * list event)) : Prop :=
   match r with Ok (c', e) => c_pid c' = c_pid c /\ released e = [] | Panic _ => True end.
-Lemma QR_ACC g c r : QR c r -> ACC g c r.
+Lemma QR_ACC rs g c r : QR c r -> ACC rs g c r.
 Proof. destruct r as [[c' e]|]; cbn [QR ACC]; [|trivial]. intros [-> ->]. apply accp_refl. Qed.
 
 Lemma post_q c : c_pid (fst (send_post_process c)) = c_pid c /\ released (snd (send_post_process c)) = [].
@@ -234,42 +236,42 @@ Proof.
 Qed.
 
 (* ---- calls that release ---- *)
-Lemma ACC_pre g c0 c r : c_pid c = c_pid c0 -> ACC g c r -> ACC g c0 r.
+Lemma ACC_pre rs g c0 c r : c_pid c = c_pid c0 -> ACC rs g c r -> ACC rs g c0 r.
 Proof. destruct r as [[c' e]|]; cbn [ACC]; [|trivial]. now intros ->. Qed.
 
-Lemma release_if_used_acc g c id c' e : release_if_used c id = Ok (c', e) -> accp g (c_pid c) (c_pid c') (released e).
+Lemma release_if_used_acc rs g c id c' e : release_if_used c id = Ok (c', e) -> accp rs g (c_pid c) (c_pid c') (released e).
 Proof.
   unfold release_if_used, is_used, pm_is_used. destruct (a_is_used (c_pid c) id) eqn:Eu; [|intro H; inversion H; subst; apply accp_refl].
   destruct (pm_release (c_pid c) id) as [a|] eqn:Er; cbn [bindr]; [|discriminate]. intro H; inversion H; subst. conn_simpl_goal.
   now apply release_acc.
 Qed.
 (* a guarded release followed by events that announce nothing *)
-Lemma release_then g c0 c id (k : evs -> evs) :
+Lemma release_then rs g c0 c id (k : evs -> evs) :
   c_pid c = c_pid c0 -> (forall e, released (k e) = released e) ->
-  ACC g c0 (bindr (release_if_used c id) (fun '(c1, e) => Ok (c1, k e))).
+  ACC rs g c0 (bindr (release_if_used c id) (fun '(c1, e) => Ok (c1, k e))).
 Proof.
   intros Hc Hk. destruct (release_if_used c id) as [[c1 e]|] eqn:E; cbn [bindr ACC]; [|exact I].
-  rewrite Hk, <- Hc. now apply (release_if_used_acc g c id).
+  rewrite Hk, <- Hc. now apply (release_if_used_acc rs g c id).
 Qed.
-Lemma refuse_publish_acc g A c id err pre :
-  accp g A (c_pid c) (released pre) ->
-  match refuse_publish c id err pre with Ok (c', e) => accp g A (c_pid c') (released e) | Panic _ => True end.
+Lemma refuse_publish_acc rs g A c id err pre :
+  accp rs g A (c_pid c) (released pre) ->
+  match refuse_publish c id err pre with Ok (c', e) => accp rs g A (c_pid c') (released e) | Panic _ => True end.
 Proof.
   intro H. unfold refuse_publish. destruct (negb (id =? 0) && is_used c id) eqn:E.
   - apply andb_true_iff in E as [_ Eu]. destruct (pm_release (c_pid c) id) as [a|] eqn:Er; cbn [bindr]; [|exact I]. conn_simpl_goal.
     rewrite released_app. change (released [EError err; EReleased id]) with [id].
-    apply (accp_trans g A (c_pid c) a); [exact H|now apply release_acc].
+    apply (accp_trans rs g A (c_pid c) a); [exact H|now apply release_acc].
   - rewrite released_app. change (released [EError err]) with (@nil N). now rewrite app_nil_r.
 Qed.
 
-Lemma send_sub_unsub_ACC g c p : ACC g c (send_sub_unsub c p).
+Lemma send_sub_unsub_ACC rs g c p : ACC rs g c (send_sub_unsub c p).
 Proof.
   unfold send_sub_unsub. cbv zeta.
   destruct (_ && _); [apply release_then; [reflexivity|intro e; rewrite released_app; reflexivity]|].
   destruct (negb _); [apply release_then; [reflexivity|intro e; rewrite released_app; reflexivity]|].
   apply QR_ACC. q_auto3.
 Qed.
-Lemma send_publish_v311_ACC g c p : ACC g c (send_publish_v311 c p).
+Lemma send_publish_v311_ACC rs g c p : ACC rs g c (send_publish_v311 c p).
 Proof.
   unfold send_publish_v311. cbv zeta. destruct (negb (k_qos p =? 0)); [|apply QR_ACC; q_auto3].
   destruct (_ && _); [apply release_then; [reflexivity|intro e; rewrite released_app; reflexivity]|].
@@ -283,18 +285,18 @@ Proof.
   destruct (c_ta_send c) as [s|]; [|reflexivity]. destruct (tas_get s x) as [[t|] s']; reflexivity.
 Qed.
 
-Lemma send_publish_v5_ACC g c p : ACC g c (send_publish_v5 g c p).
+Lemma send_publish_v5_ACC rs g c p : ACC rs g c (send_publish_v5 g c p).
 Proof.
   unfold send_publish_v5. cbv zeta.
   destruct (negb (size_ok c p)).
   { destruct (negb _); [apply release_then; [reflexivity|intro e; rewrite released_app; reflexivity]|apply QR_ACC; q_leaf]. }
-  match goal with |- ACC _ _ (bindr ?P1 _) =>
-    assert (H1 : match P1 with Ok (c1, _, _, _, e1) => accp g (c_pid c) (c_pid c1) (released e1) | Panic _ => True end) end.
+  match goal with |- ACC _ _ _ (bindr ?P1 _) =>
+    assert (H1 : match P1 with Ok (c1, _, _, _, e1) => accp rs g (c_pid c) (c_pid c1) (released e1) | Panic _ => True end) end.
   { assert (Hrel : forall cx, c_pid cx = c_pid c ->
               match bindr (release_if_used cx (k_pid p)) (fun '(c2, e) => Ok (c2, @None N, false, true, not_allowed ++ e)) with
-              | Ok (c1, _, _, _, e1) => accp g (c_pid c) (c_pid c1) (released e1) | Panic _ => True end).
+              | Ok (c1, _, _, _, e1) => accp rs g (c_pid c) (c_pid c1) (released e1) | Panic _ => True end).
     { intros cx Hx. destruct (release_if_used cx (k_pid p)) as [[c2 e]|] eqn:E; cbn [bindr]; [|exact I].
-      rewrite released_app. change (released not_allowed) with (@nil N). cbn [app]. rewrite <- Hx. now apply (release_if_used_acc g cx (k_pid p)). }
+      rewrite released_app. change (released not_allowed) with (@nil N). cbn [app]. rewrite <- Hx. now apply (release_if_used_acc rs g cx (k_pid p)). }
     destruct (negb (k_qos p =? 0)); [|destruct (negb _); apply accp_refl].
     destruct (_ && _); [now apply Hrel|]. destruct (negb (is_used _ _)); [apply accp_refl|].
     assert (Hst : forall cx q (rel : option N) (val : bool), c_pid cx = c_pid c ->
@@ -303,7 +305,7 @@ Proof.
                          if stop then Ok (c0, rel, validated, stop, e) else
                          let c0 := if k_qos p =? 2 then set_pubrec c0 (ins (k_pid p) (c_pubrec c0)) else set_puback c0 (ins (k_pid p) (c_puback c0)) in
                          Ok (c0, rel, validated, false, e)) with
-              | Ok (c1, _, _, _, e1) => accp g (c_pid c) (c_pid c1) (released e1) | Panic _ => True end).
+              | Ok (c1, _, _, _, e1) => accp rs g (c_pid c) (c_pid c1) (released e1) | Panic _ => True end).
     { intros cx q rel val Hx. unfold store_add. destruct (store_has _ _); cbn [bindr]; [exact I|]. cbv zeta.
       destruct (_ =? 2); conn_simpl_goal; rewrite Hx; apply accp_refl. }
     destruct (can_store_now c).
@@ -313,25 +315,25 @@ Proof.
                          if stop then Ok (c0, rel, validated, stop, e) else
                          let c0 := if k_qos p =? 2 then set_pubrec c0 (ins (k_pid p) (c_pubrec c0)) else set_puback c0 (ins (k_pid p) (c_puback c0)) in
                          Ok (c0, rel, validated, false, e)) with
-                | Ok (c1, _, _, _, e1) => accp g (c_pid c) (c_pid c1) (released e1) | Panic _ => True end).
+                | Ok (c1, _, _, _, e1) => accp rs g (c_pid c) (c_pid c1) (released e1) | Panic _ => True end).
       { intros cx Hx. destruct (release_if_used cx (k_pid p)) as [[c2 e]|] eqn:E; cbn [bindr]; [|exact I].
-        rewrite released_app. change (released not_allowed) with (@nil N). cbn [app]. rewrite <- Hx. now apply (release_if_used_acc g cx (k_pid p)). }
+        rewrite released_app. change (released not_allowed) with (@nil N). cbn [app]. rewrite <- Hx. now apply (release_if_used_acc rs g cx (k_pid p)). }
       destruct (topic_empty p).
       + pose proof (validate_pid c (k_alias p)) as Hv. destruct (validate_topic_alias c (k_alias p)) as [topt cx]. cbn [snd] in Hv.
         destruct topt as [t|]; [now apply Hst|now apply Hrel2].
       + now apply Hst.
     - cbn [bindr]. cbv zeta. destruct (_ =? 2); conn_simpl_goal; apply accp_refl. }
-  match goal with |- ACC _ _ (bindr ?P1 _) => destruct P1 as [[[[[c1 rel] val] stop] e1]|]; cbn [bindr]; [|exact I] end.
+  match goal with |- ACC _ _ _ (bindr ?P1 _) => destruct P1 as [[[[[c1 rel] val] stop] e1]|]; cbn [bindr]; [|exact I] end.
   destruct stop; [exact H1|].
-  match goal with |- ACC _ _ (if ?b then _ else _) => destruct b end.
-  { pose proof (refuse_publish_acc g (c_pid c) c1 (k_pid p) E_RECEIVE_MAXIMUM_EXCEEDED e1 H1) as H.
+  match goal with |- ACC _ _ _ (if ?b then _ else _) => destruct b end.
+  { pose proof (refuse_publish_acc rs g (c_pid c) c1 (k_pid p) E_RECEIVE_MAXIMUM_EXCEEDED e1 H1) as H.
     destruct (refuse_publish _ _ _ _) as [[c2 e]|]; [exact H|exact I]. }
-  match goal with |- ACC _ _ (bindr ?P2 _) =>
-    assert (H2 : match P2 with Ok (c2, _, _, e2) => accp g (c_pid c1) (c_pid c2) (released e2) | Panic _ => True end) end.
+  match goal with |- ACC _ _ _ (bindr ?P2 _) =>
+    assert (H2 : match P2 with Ok (c2, _, _, e2) => accp rs g (c_pid c1) (c_pid c2) (released e2) | Panic _ => True end) end.
   { assert (Href : forall cx, c_pid cx = c_pid c1 ->
               match bindr (refuse_publish cx (k_pid p) E_NOT_ALLOWED_TO_SEND []) (fun '(c2, e) => Ok (c2, p, true, e)) with
-              | Ok (c2, _, _, e2) => accp g (c_pid c1) (c_pid c2) (released e2) | Panic _ => True end).
-    { intros cx Hx. pose proof (refuse_publish_acc g (c_pid c1) cx (k_pid p) E_NOT_ALLOWED_TO_SEND [] ltac:(rewrite Hx; apply accp_refl)) as H.
+              | Ok (c2, _, _, e2) => accp rs g (c_pid c1) (c_pid c2) (released e2) | Panic _ => True end).
+    { intros cx Hx. pose proof (refuse_publish_acc rs g (c_pid c1) cx (k_pid p) E_NOT_ALLOWED_TO_SEND [] ltac:(rewrite Hx; apply accp_refl)) as H.
       destruct (refuse_publish _ _ _ _) as [[c2 e]|]; cbn [bindr]; [exact H|exact I]. }
     destruct (topic_empty p).
     - destruct val; [apply accp_refl|].
@@ -346,8 +348,8 @@ Proof.
           destruct (tas_insert s _ a); cbn [bindr]; [apply accp_refl|exact I].
         * destruct (c_auto_replace c1); [|apply accp_refl]. destruct (c_ta_send c1) as [s|]; [|apply accp_refl].
           destruct (tas_find_by_topic s _) as [a|]; [cbv zeta|]; apply accp_refl. }
-  match goal with |- ACC _ _ (bindr ?P2 _) => destruct P2 as [[[[c2 q] stop2] e2]|]; cbn [bindr]; [|exact I] end.
-  pose proof (accp_trans g _ _ _ _ _ H1 H2) as H12. rewrite <- released_app in H12.
+  match goal with |- ACC _ _ _ (bindr ?P2 _) => destruct P2 as [[[[c2 q] stop2] e2]|]; cbn [bindr]; [|exact I] end.
+  pose proof (accp_trans rs g _ _ _ _ _ H1 H2) as H12. rewrite <- released_app in H12.
   destruct stop2; [exact H12|].
   match goal with |- context [if ?b then set_send_count c2 (c_send_count c2 + 1) else c2] =>
     set (c3 := if b then set_send_count c2 (c_send_count c2 + 1) else c2) end.
@@ -365,19 +367,19 @@ Proof.
   - fold (released (send_stored_events mps t)). now rewrite IH.
   - fold (released (send_stored_events mps t)). exact IH.
 Qed.
-Lemma send_stored_ACC g c : OWN g c -> ACC g c (send_stored c).
+Lemma send_stored_ACC rs g c : OWN g c -> ACC rs g c (send_stored c).
 Proof.
   intro HO. unfold send_stored. pose proof (send_stored_l_parts (c_mps_send c) (c_store c)) as Hp.
   pose proof (released_stored_events (c_mps_send c) (c_store c)) as Hre.
   destruct (send_stored_l (c_mps_send c) (c_store c)) as [kept dropped]. destruct Hp as (_ & P2 & P3). cbn [snd] in Hre.
   destruct (P3 (o_nodup _ _ _ _ _ _ _ _ _ HO)) as (_ & Q2 & _). cbv zeta. conn_simpl_goal.
   destruct (release_all (c_pid c) (map k_pid dropped)) as [a|] eqn:Er; cbn [bindr ACC]; [|exact I].
-  rewrite Hre. match goal with |- accp g _ (c_pid (match ?o with Some _ => _ | None => _ end)) _ => destruct o end; conn_simpl_goal;
-    exact (release_all_acc g _ _ _ dropped _ _ _ _ _ a HO P2 Q2 Er).
+  rewrite Hre. match goal with |- accp rs g _ (c_pid (match ?o with Some _ => _ | None => _ end)) _ => destruct o end; conn_simpl_goal;
+    exact (release_all_acc rs g _ _ _ dropped _ _ _ _ _ a HO P2 Q2 Er).
 Qed.
 Lemma connack_send_props_q c p : c_pid (fst (connack_send_props c p)) = c_pid c /\ released (snd (connack_send_props c p)) = [].
 Proof. unfold connack_send_props. own_split; cbn [fst snd]; split; reflexivity. Qed.
-Lemma send_connack_ACC g c p : OWN g c -> ACC g c (send_connack c p).
+Lemma send_connack_ACC rs g c p : OWN g c -> ACC rs g c (send_connack c p).
 Proof.
   intro HO. unfold send_connack. cbv zeta. destruct (_ && _); [apply QR_ACC; q_leaf|]. destruct (negb (status_eqb _ _)); [apply QR_ACC; q_leaf|].
   pose proof (connack_send_props_f8 c p) as Hf. pose proof (connack_send_props_q c p) as [Hq1 Hq2].
@@ -387,60 +389,73 @@ Proof.
     conn_simpl. rewrite K1, Hq1. rewrite !released_app, Hq2, K2. cbn. apply accp_refl.
   - assert (H2 : OWN g (set_status c1 Connected)).
     { apply (f8_own g c); [|exact HO]. apply (f8_trans _ c1); [unfold F8; conn_simpl; repeat split|exact Hf]. }
-    pose proof (send_stored_ACC g _ H2) as H. destruct (send_stored _) as [[c2 es]|]; cbn [bindr ACC] in *; [|exact I]. conn_simpl.
+    pose proof (send_stored_ACC rs g _ H2) as H. destruct (send_stored _) as [[c2 es]|]; cbn [bindr ACC] in *; [|exact I]. conn_simpl.
     pose proof (post_q c2) as [P1 P2]. destruct (send_post_process c2) as [c3 e3]. cbn [fst snd ACC] in *.
     rewrite P1. rewrite !released_app, Hq2, P2. change (released [ESend p None]) with (@nil N). cbn [app]. rewrite app_nil_r. rewrite <- Hq1. exact H.
 Qed.
 
-(* the session starts anew: everything free, nothing announced — or nothing changes *)
-Ltac reset_or_same HW :=
-  unfold initialize, clear_store_related; conn_simpl_goal; first [apply accp_refl|apply clear_acc].
-Lemma send_connect_ACC g c p : ACC g c (send_connect c p).
+(* the session starts anew: everything free, nothing announced — or nothing changes.  rs = false excludes the
+   calls that start a new session *)
+Lemma clear_acc' rs g a : rs = true -> accp rs g a (pm_clear a) [].
+Proof. intros ->. apply clear_acc. Qed.
+Ltac same_pid := unfold initialize; conn_simpl_goal; apply accp_refl.
+Ltac reset_pid Hrs := unfold initialize, clear_store_related; conn_simpl_goal; apply clear_acc'; exact Hrs.
+
+Lemma send_connect_ACC rs g c p : (k_flag p = true -> rs = true) -> ACC rs g c (send_connect c p).
 Proof.
-  unfold send_connect. cbv zeta. destruct (_ && _); [apply QR_ACC; q_leaf|]. destruct (negb _); [apply QR_ACC; q_leaf|].
+  intro Hrs. unfold send_connect. cbv zeta. destruct (_ && _); [apply QR_ACC; q_leaf|]. destruct (negb _); [apply QR_ACC; q_leaf|].
   unfold send_and_post.
-  match goal with |- ACC _ _ (let '(_, _) := send_post_process ?x in _) =>
+  match goal with |- ACC _ _ _ (let '(_, _) := send_post_process ?x in _) =>
     pose proof (post_q x) as [P1 P2]; destruct (send_post_process x) as [c' e]; cbn [fst snd ACC] in * end.
-  rewrite P1. rewrite !released_app, P2. cbn. own_split; reset_or_same tt.
+  rewrite P1. rewrite !released_app, P2. cbn.
+  destruct (k_flag p); [own_split; reset_pid (Hrs eq_refl)|own_split; same_pid].
 Qed.
-Lemma connect_recv_state_acc g c v p c' : connect_recv_state c v p = Ok c' -> accp g (c_pid c) (c_pid c') [].
+Lemma connect_recv_state_acc rs g c v p c' : (k_flag p = true -> rs = true) -> connect_recv_state c v p = Ok c' -> accp rs g (c_pid c) (c_pid c') [].
 Proof.
-  unfold connect_recv_state. cbv zeta. destruct (version_eqb v V50).
-  - match goal with |- bindr ?X _ = _ -> _ => destruct X as [c1|] eqn:E1; cbn [bindr]; [|discriminate] end.
-    intro H; inversion H; subst c'; clear H.
-    assert (H1 : accp g (c_pid c) (c_pid c1) []).
-    { revert E1. own_split; try discriminate;
-        try match goal with |- bindr (tas_new ?m) _ = _ -> _ => destruct (tas_new m); cbn [bindr]; try discriminate end;
-        intro H; injection H as <-; reset_or_same tt. }
-    own_split; conn_simpl_goal; exact H1.
-  - intro H; inversion H; subst c'. own_split; reset_or_same tt.
+  intro Hrs. unfold connect_recv_state. cbv zeta.
+  assert (H0 : forall cx, c_pid cx = c_pid c -> accp rs g (c_pid c)
+            (c_pid (if k_flag p then clear_store_related cx else if version_eqb v V311 then set_need_store cx true else cx)) []).
+  { intros cx Hx. destruct (k_flag p); [unfold clear_store_related; conn_simpl_goal; rewrite Hx; apply clear_acc'; now apply Hrs|].
+    destruct (version_eqb v V311); conn_simpl_goal; rewrite Hx; apply accp_refl. }
+  match goal with |- context [if k_flag p then clear_store_related ?cx else _] => specialize (H0 cx ltac:(own_split; reflexivity)); set (c0 := if k_flag p then clear_store_related cx else _) in * end.
+  destruct (version_eqb v V50).
+  - destruct (k_tam p) as [m|]; [destruct (negb (m =? 0)); [destruct (tas_new m)|]|]; cbn [bindr]; try discriminate;
+      intro H; injection H as <-; own_split; conn_simpl_goal; exact H0.
+  - intro H; injection H as <-. exact H0.
 Qed.
-Lemma recv_connect_ACC g c v pr : OWN g c -> ACC g c (recv_connect g c v pr).
+Definition pr_keeps (rs : bool) (pr : presult) : Prop := match pr with PROk p => k_flag p = true -> rs = true | PRErr _ => True end.
+Lemma recv_connect_ACC rs g c v pr : OWN g c -> pr_keeps rs pr -> ACC rs g c (recv_connect g c v pr).
 Proof.
-  intro HO. unfold recv_connect. destruct (negb _); [apply QR_ACC, handle_error_QR|]. cbv zeta.
+  intros HO Hk. unfold recv_connect. destruct (negb _); [apply QR_ACC, handle_error_QR|]. cbv zeta.
   destruct pr as [p|e].
-  - destruct (connect_recv_state _ v p) as [c1|] eqn:E; cbn [bindr]; [|exact I]. apply (connect_recv_state_acc g) in E. conn_simpl.
+  - destruct (connect_recv_state _ v p) as [c1|] eqn:E; cbn [bindr]; [|exact I]. apply (connect_recv_state_acc rs g _ v p c1 Hk) in E. conn_simpl.
     pose proof (refresh_q c1) as [P1 P2]. destruct (refresh_pingreq_recv c1) as [c2 e2]. cbn [fst snd ACC] in *.
     rewrite P1. rewrite released_app, P2. cbn. exact E.
   - assert (H0 : OWN g (set_status c Connecting)) by (apply (f8_own g c); [unfold F8; conn_simpl; repeat split|exact HO]).
-    pose proof (send_connack_ACC g _ (connect_refusal v e) H0) as H.
+    pose proof (send_connack_ACC rs g _ (connect_refusal v e) H0) as H.
     destruct (send_connack _ _) as [[c1 ev]|]; cbn [bindr ACC] in *; [|exact I]. conn_simpl. rewrite released_app. cbn. now rewrite app_nil_r.
 Qed.
-Lemma resume_or_clear_ACC g c sp : OWN g c -> ACC g c (resume_or_clear c sp).
+Lemma resume_or_clear_ACC rs g c sp : OWN g c -> (sp = false -> rs = true) -> ACC rs g c (resume_or_clear c sp).
 Proof.
-  intro HO. unfold resume_or_clear. destruct sp.
-  - pose proof (send_stored_ACC g c HO) as H. destruct (send_stored c) as [[c1 es]|]; cbn [bindr ACC] in *; [|exact I].
+  intros HO Hrs. unfold resume_or_clear. destruct sp.
+  - pose proof (send_stored_ACC rs g c HO) as H. destruct (send_stored c) as [[c1 es]|]; cbn [bindr ACC] in *; [|exact I].
     destruct (existsb _ es); [|exact H]. pose proof (post_q c1) as [P1 P2]. destruct (send_post_process c1) as [c2 e]. cbn [fst snd ACC] in *.
     rewrite P1, released_app, P2, app_nil_r. exact H.
-  - cbn [ACC]. reset_or_same tt.
+  - cbn [ACC]. reset_pid (Hrs eq_refl).
 Qed.
-Lemma recv_connack_ACC g c v pr : OWN g c -> ACC g c (recv_connack c v pr).
+(* a CONNACK that keeps the session: Session Present, and (v5.0) no Session Expiry Interval of 0 *)
+Definition connack_keeps_session (p : pkt) : bool := k_flag p && negb (match k_sei p with Some m => m =? 0 | None => false end).
+Definition pr_connack_keeps (rs : bool) (pr : presult) : Prop :=
+  match pr with PROk p => connack_keeps_session p = false -> rs = true | PRErr _ => True end.
+Lemma recv_connack_ACC rs g c v pr : OWN g c -> pr_connack_keeps rs pr -> ACC rs g c (recv_connack c v pr).
 Proof.
-  intro HO. unfold recv_connack. destruct (status_eqb (c_status c) Connected); [apply QR_ACC, handle_error_QR|].
+  intros HO Hk. unfold recv_connack. destruct (status_eqb (c_status c) Connected); [apply QR_ACC, handle_error_QR|].
   destruct pr as [p|e].
   2:{ destruct (version_eqb v V50); apply QR_ACC; q_leaf. }
+  cbn [pr_connack_keeps] in Hk. unfold connack_keeps_session in Hk.
   destruct (k_rc p =? 0); [|apply QR_ACC; q_leaf]. cbv zeta.
   assert (H0 : OWN g (set_status c Connected)) by (apply (f8_own g c); [unfold F8; conn_simpl; repeat split|exact HO]).
+  assert (Hsp : k_flag p = false -> rs = true) by (intro E; apply Hk; now rewrite E).
   destruct (version_eqb v V50).
   - destruct (connack_recv_limits _ p) as [c1|] eqn:E1; cbn [bindr]; [|exact I].
     pose proof (connack_recv_limits_f8 _ p c1 E1) as F1.
@@ -450,92 +465,104 @@ Proof.
     assert (F : F8 c2 c) by (apply (f8_trans _ c1); [exact F2|apply (f8_trans _ (set_status c Connected)); [exact F1|unfold F8; conn_simpl; repeat split]]).
     pose proof (f8_own g c c2 F HO) as H2. assert (P2 : c_pid c2 = c_pid c) by (now destruct F as (F & _)).
     assert (H3 : OWN g (connack_recv_sei c2 p)) by (unfold connack_recv_sei; own_split; own_leaf H2).
-    assert (A3 : accp g (c_pid c) (c_pid (connack_recv_sei c2 p)) []).
-    { rewrite <- P2. unfold connack_recv_sei. own_split; reset_or_same tt. }
-    pose proof (resume_or_clear_ACC g _ (k_flag p) H3) as Hr. destruct (resume_or_clear _ _) as [[c3 e2]|]; cbn [bindr ACC] in *; [|exact I].
+    assert (A3 : accp rs g (c_pid c) (c_pid (connack_recv_sei c2 p)) []).
+    { rewrite <- P2. unfold connack_recv_sei. destruct (k_sei p) as [m|]; [destruct (m =? 0) eqn:Em|].
+      - unfold clear_store_related. conn_simpl_goal. apply clear_acc'. apply Hk. now rewrite andb_false_r.
+      - conn_simpl_goal. apply accp_refl.
+      - apply accp_refl. }
+    pose proof (resume_or_clear_ACC rs g _ (k_flag p) H3 Hsp) as Hr. destruct (resume_or_clear _ _) as [[c3 e2]|]; cbn [bindr ACC] in *; [|exact I].
     rewrite !released_app, Hska. change (released [ENotify p]) with (@nil N). rewrite app_nil_r. cbn [app].
-    exact (accp_trans g _ _ _ [] _ A3 Hr).
-  - pose proof (resume_or_clear_ACC g _ (k_flag p) H0) as Hr. destruct (resume_or_clear _ _) as [[c3 e2]|]; cbn [bindr ACC] in *; [|exact I].
+    exact (accp_trans rs g _ _ _ [] _ A3 Hr).
+  - pose proof (resume_or_clear_ACC rs g _ (k_flag p) H0 Hsp) as Hr. destruct (resume_or_clear _ _) as [[c3 e2]|]; cbn [bindr ACC] in *; [|exact I].
     conn_simpl. rewrite released_app. change (released [ENotify p]) with (@nil N). now rewrite app_nil_r.
 Qed.
 
 (* ---- acknowledgements, close, erase ---- *)
-Lemma release_fin g c0 cx id (f : conn -> conn) (p : pkt) :
+Lemma release_fin rs g c0 cx id (f : conn -> conn) (p : pkt) :
   c_pid cx = c_pid c0 -> (forall x, c_pid (f x) = c_pid x) ->
-  ACC g c0 (bindr (release_if_used cx id) (fun '(c1, e1) => let '(c2, e2) := refresh_pingreq_recv (f c1) in Ok (c2, e1 ++ e2 ++ [ENotify p]))).
+  ACC rs g c0 (bindr (release_if_used cx id) (fun '(c1, e1) => let '(c2, e2) := refresh_pingreq_recv (f c1) in Ok (c2, e1 ++ e2 ++ [ENotify p]))).
 Proof.
   intros Hx Hf. destruct (release_if_used cx id) as [[c1 e1]|] eqn:E; cbn [bindr]; [|exact I].
   pose proof (refresh_q (f c1)) as [P1 P2]. destruct (refresh_pingreq_recv (f c1)) as [c2 e2]. cbn [fst snd ACC] in *.
   rewrite P1, Hf. rewrite !released_app, P2. change (released [ENotify p]) with (@nil N). cbn [app]. rewrite app_nil_r. rewrite <- Hx.
-  now apply (release_if_used_acc g cx id).
+  now apply (release_if_used_acc rs g cx id).
 Qed.
 Lemma dec_pid c : c_pid (match c_send_max c with Some _ => set_send_count c (c_send_count c - 1) | None => c end) = c_pid c.
 Proof. destruct (c_send_max c); reflexivity. Qed.
 
-Lemma recv_ack_ACC g c v t pr : ACC g c (recv_ack g c v t pr).
+Lemma recv_ack_ACC rs g c v t pr : ACC rs g c (recv_ack g c v t pr).
 Proof.
   unfold recv_ack. destruct pr as [p|e]; [|apply QR_ACC, handle_error_QR]. cbv zeta.
   destruct (t =? T_PUBACK).
   { destruct (mem _ (c_puback c)); [|apply QR_ACC, handle_error_QR].
-    apply (release_fin g c _ (k_pid p) (fun x => if version_eqb v V50 then match c_send_max x with Some _ => set_send_count x (c_send_count x - 1) | None => x end else x)); [reflexivity|].
+    apply (release_fin rs g c _ (k_pid p) (fun x => if version_eqb v V50 then match c_send_max x with Some _ => set_send_count x (c_send_count x - 1) | None => x end else x)); [reflexivity|].
     intro x. destruct (version_eqb v V50); [apply dec_pid|reflexivity]. }
   destruct (t =? T_PUBREC).
   { destruct (mem _ (c_pubrec c)); [|apply QR_ACC, handle_error_QR].
-    match goal with |- ACC _ _ (if ?b then _ else _) => destruct b end.
-    - match goal with |- ACC _ _ (bindr (if ?b then _ else _) _) => destruct b end.
-      + match goal with |- ACC _ _ (bindr (send_pubrel ?cx ?q) _) =>
+    match goal with |- ACC _ _ _ (if ?b then _ else _) => destruct b end.
+    - match goal with |- ACC _ _ _ (bindr (if ?b then _ else _) _) => destruct b end.
+      + match goal with |- ACC _ _ _ (bindr (send_pubrel ?cx ?q) _) =>
           pose proof (send_pubrel_QR cx q) as H; destruct (send_pubrel cx q) as [[c2 e1]|]; cbn [bindr QR] in *; [|exact I] end.
         destruct H as [H1 H2]. unfold store_erase in H1. conn_simpl.
         pose proof (refresh_q c2) as [P1 P2]. destruct (refresh_pingreq_recv c2) as [c3 e2]. cbn [fst snd ACC] in *.
         rewrite P1, H1. rewrite !released_app, H2, P2. cbn. apply accp_refl.
-      + cbn [bindr]. match goal with |- ACC _ _ (let '(_, _) := refresh_pingreq_recv ?x in _) =>
+      + cbn [bindr]. match goal with |- ACC _ _ _ (let '(_, _) := refresh_pingreq_recv ?x in _) =>
           pose proof (refresh_q x) as [P1 P2]; destruct (refresh_pingreq_recv x) as [c3 e2]; cbn [fst snd ACC] in * end.
         unfold store_erase in P1. conn_simpl. rewrite P1. rewrite !released_app, P2. cbn. apply accp_refl.
-    - apply (release_fin g c _ (k_pid p) (fun x => match c_send_max x with Some _ => set_send_count x (c_send_count x - 1) | None => x end)); [reflexivity|].
+    - apply (release_fin rs g c _ (k_pid p) (fun x => match c_send_max x with Some _ => set_send_count x (c_send_count x - 1) | None => x end)); [reflexivity|].
       intro x. apply dec_pid. }
   destruct (t =? T_PUBCOMP).
   { destruct (mem _ (c_pubcomp c)); [|apply QR_ACC, handle_error_QR].
-    apply (release_fin g c _ (k_pid p) (fun x => if version_eqb v V50 then match c_send_max x with Some _ => set_send_count x (c_send_count x - 1) | None => x end else x)); [reflexivity|].
+    apply (release_fin rs g c _ (k_pid p) (fun x => if version_eqb v V50 then match c_send_max x with Some _ => set_send_count x (c_send_count x - 1) | None => x end else x)); [reflexivity|].
     intro x. destruct (version_eqb v V50); [apply dec_pid|reflexivity]. }
   destruct (t =? T_SUBACK).
-  { destruct (mem _ (c_suback c)); [|apply QR_ACC, handle_error_QR]. apply (release_fin g c _ (k_pid p) (fun x => x)); reflexivity. }
-  { destruct (mem _ (c_unsuback c)); [|apply QR_ACC, handle_error_QR]. apply (release_fin g c _ (k_pid p) (fun x => x)); reflexivity. }
+  { destruct (mem _ (c_suback c)); [|apply QR_ACC, handle_error_QR]. apply (release_fin rs g c _ (k_pid p) (fun x => x)); reflexivity. }
+  { destruct (mem _ (c_unsuback c)); [|apply QR_ACC, handle_error_QR]. apply (release_fin rs g c _ (k_pid p) (fun x => x)); reflexivity. }
 Qed.
 
-Lemma do_closed_ACC g c : ACC g c (do_closed c).
+Lemma do_closed_ACC rs g c : ACC rs g c (do_closed c).
 Proof.
   unfold do_closed. cbv zeta. conn_simpl_goal.
-  destruct (drain_release (c_pid c) (c_suback c)) as [[a1 e1]|] eqn:E1; cbn [bindr]; [|exact I]. apply (drain_release_acc g) in E1.
-  destruct (drain_release a1 (c_unsuback c)) as [[a2 e2]|] eqn:E2; cbn [bindr]; [|exact I]. apply (drain_release_acc g) in E2. conn_simpl_goal.
-  pose proof (accp_trans g _ _ _ _ _ E1 E2) as E12.
+  destruct (drain_release (c_pid c) (c_suback c)) as [[a1 e1]|] eqn:E1; cbn [bindr]; [|exact I]. apply (drain_release_acc rs g) in E1.
+  destruct (drain_release a1 (c_unsuback c)) as [[a2 e2]|] eqn:E2; cbn [bindr]; [|exact I]. apply (drain_release_acc rs g) in E2. conn_simpl_goal.
+  pose proof (accp_trans rs g _ _ _ _ _ E1 E2) as E12.
   destruct (negb (c_need_store c)); cbn [bindr].
   - conn_simpl_goal.
-    destruct (drain_release a2 (c_puback c)) as [[a3 e3]|] eqn:E3; cbn [bindr]; [|exact I]. apply (drain_release_acc g) in E3.
-    destruct (drain_release a3 (c_pubrec c)) as [[a4 e4]|] eqn:E4; cbn [bindr]; [|exact I]. apply (drain_release_acc g) in E4.
-    destruct (drain_release a4 (c_pubcomp c)) as [[a5 e5]|] eqn:E5; cbn [bindr]; [|exact I]. apply (drain_release_acc g) in E5.
-    match goal with |- ACC _ _ (let '(_, _) := cancel_timers ?x in _) =>
+    destruct (drain_release a2 (c_puback c)) as [[a3 e3]|] eqn:E3; cbn [bindr]; [|exact I]. apply (drain_release_acc rs g) in E3.
+    destruct (drain_release a3 (c_pubrec c)) as [[a4 e4]|] eqn:E4; cbn [bindr]; [|exact I]. apply (drain_release_acc rs g) in E4.
+    destruct (drain_release a4 (c_pubcomp c)) as [[a5 e5]|] eqn:E5; cbn [bindr]; [|exact I]. apply (drain_release_acc rs g) in E5.
+    match goal with |- ACC _ _ _ (let '(_, _) := cancel_timers ?x in _) =>
       pose proof (cancel_q x) as [P1 P2]; destruct (cancel_timers x) as [c6 e6]; cbn [fst snd ACC] in * end.
     conn_simpl. rewrite P1. rewrite !released_app, P2, app_nil_r.
-    pose proof (accp_trans g _ _ _ _ _ E12 (accp_trans g _ _ _ _ _ E3 (accp_trans g _ _ _ _ _ E4 E5))) as H.
+    pose proof (accp_trans rs g _ _ _ _ _ E12 (accp_trans rs g _ _ _ _ _ E3 (accp_trans rs g _ _ _ _ _ E4 E5))) as H.
     rewrite <- !app_assoc in H. exact H.
-  - match goal with |- ACC _ _ (let '(_, _) := cancel_timers ?x in _) =>
+  - match goal with |- ACC _ _ _ (let '(_, _) := cancel_timers ?x in _) =>
       pose proof (cancel_q x) as [P1 P2]; destruct (cancel_timers x) as [c6 e6]; cbn [fst snd ACC] in * end.
     conn_simpl. rewrite P1. rewrite !released_app, P2. cbn [released flat_map app]. rewrite !app_nil_r. exact E12.
 Qed.
 
-Lemma do_erase_ACC g c id : ACC g c (do_erase c id).
+Lemma do_erase_ACC rs g c id : ACC rs g c (do_erase c id).
 Proof.
   unfold do_erase. destruct (store_erase_publish_l id (c_store c)) as [b l]. destruct b; [|apply QR_ACC; q_leaf]. cbv zeta.
-  match goal with |- ACC _ _ (release_if_used ?x id) => destruct (release_if_used x id) as [[c1 e]|] eqn:E; [|exact I];
-    apply (release_if_used_acc g) in E; assert (Hx : c_pid x = c_pid c) by (destruct (c_send_max _); [destruct (0 <? _)|]; reflexivity) end.
+  match goal with |- ACC _ _ _ (release_if_used ?x id) => destruct (release_if_used x id) as [[c1 e]|] eqn:E; [|exact I];
+    apply (release_if_used_acc rs g) in E; assert (Hx : c_pid x = c_pid c) by (destruct (c_send_max _); [destruct (0 <? _)|]; reflexivity) end.
   cbn [ACC]. rewrite <- Hx. exact E.
 Qed.
 
 (* ---- every call ---- *)
-Lemma dispatch_send_ACC g c p : OWN g c -> ACC g c (dispatch_send g c p).
+(* the calls that start a new session: a CONNECT with Clean Start / Clean Session sent or received, a CONNACK
+   received that does not keep the session *)
+Definition starts_session (o : op) : bool :=
+  match o with
+  | OSend p => (k_type p =? T_CONNECT) && k_flag p
+  | ORecv _ (PROk p) => ((k_type p =? T_CONNECT) && k_flag p) || ((k_type p =? T_CONNACK) && negb (connack_keeps_session p))
+  | _ => false
+  end.
+
+Lemma dispatch_send_ACC rs g c p : OWN g c -> ((k_type p =? T_CONNECT) && k_flag p = true -> rs = true) -> ACC rs g c (dispatch_send g c p).
 Proof.
-  intro HO. unfold dispatch_send. cbv zeta.
-  destruct (k_type p =? T_CONNECT); [apply send_connect_ACC|].
+  intros HO Hrs. unfold dispatch_send. cbv zeta.
+  destruct (k_type p =? T_CONNECT); [apply send_connect_ACC; intro E; apply Hrs; now rewrite E|].
   destruct (k_type p =? T_CONNACK); [now apply send_connack_ACC|].
   destruct (k_type p =? T_PUBLISH); [destruct (version_eqb _ _); [apply send_publish_v5_ACC|apply send_publish_v311_ACC]|].
   destruct (_ || _); [apply QR_ACC, send_puback_like_QR|].
@@ -546,56 +573,79 @@ Proof.
   destruct (k_type p =? T_DISCONNECT); [apply QR_ACC, send_disconnect_QR|].
   destruct (k_type p =? T_AUTH); [apply QR_ACC, send_auth_QR|]. apply QR_ACC. q_leaf.
 Qed.
-Lemma do_send_ACC g c p : OWN g c -> ACC g c (do_send g c p).
+Lemma do_send_ACC rs g c p : OWN g c -> ((k_type p =? T_CONNECT) && k_flag p = true -> rs = true) -> ACC rs g c (do_send g c p).
 Proof.
-  intro HO. unfold do_send. cbv zeta.
-  repeat match goal with |- ACC _ _ (if ?b then _ else _) => destruct b end; first [now apply dispatch_send_ACC|apply QR_ACC; q_leaf].
+  intros HO Hrs. unfold do_send. cbv zeta.
+  repeat match goal with |- ACC _ _ _ (if ?b then _ else _) => destruct b end; first [now apply dispatch_send_ACC|apply QR_ACC; q_leaf].
 Qed.
-Lemma dispatch_recv_ACC g c v t pr : OWN g c -> ACC g c (dispatch_recv g c v t pr).
+
+(* the parser's verdict belongs to the frame: its packet has the type of the fixed header *)
+Definition pr_typed (t : N) (pr : presult) : Prop := match pr with PROk p => k_type p = t | PRErr _ => True end.
+Definition pr_starts (pr : presult) : bool :=
+  match pr with PROk p => ((k_type p =? T_CONNECT) && k_flag p) || ((k_type p =? T_CONNACK) && negb (connack_keeps_session p)) | PRErr _ => false end.
+
+Lemma dispatch_recv_ACC rs g c v t pr : OWN g c -> pr_typed t pr -> (pr_starts pr = true -> rs = true) -> ACC rs g c (dispatch_recv g c v t pr).
 Proof.
-  intro HO. unfold dispatch_recv.
-  repeat match goal with |- ACC _ _ (if ?b then _ else _) => destruct b end;
-    first [ now apply recv_connect_ACC | now apply recv_connack_ACC | apply recv_ack_ACC
+  intros HO Ht Hrs. unfold dispatch_recv.
+  destruct (N.eqb_spec t 1) as [E1|E1].
+  { apply recv_connect_ACC; [exact HO|]. destruct pr as [p|e]; [|exact I]. cbn [pr_keeps pr_typed pr_starts] in *. intro Ef. apply Hrs.
+    rewrite Ht, E1, Ef. reflexivity. }
+  destruct (N.eqb_spec t 2) as [E2|E2].
+  { apply recv_connack_ACC; [exact HO|]. destruct pr as [p|e]; [|exact I]. cbn [pr_connack_keeps pr_typed pr_starts] in *. intro Ef. apply Hrs.
+    rewrite Ht, E2, Ef. cbn. reflexivity. }
+  repeat match goal with |- ACC _ _ _ (if ?b then _ else _) => destruct b end;
+    first [ apply recv_ack_ACC
           | (apply QR_ACC; first [apply recv_publish_v5_QR | apply recv_publish_v311_QR | apply recv_pubrel_QR | apply recv_notify_QR
                                  | apply recv_pingreq_QR | apply recv_pingresp_QR | apply recv_disconnect_QR | q_leaf]) ].
 Qed.
 
 From MQ Require Import Conn.OwnUndet.
 
-Lemma process_recv_packet_ACC g c fh body pr : OWNU g c -> ACC g c (process_recv_packet g c fh body pr).
+Lemma process_recv_packet_ACC rs g c fh body pr : OWNU g c -> pr_typed (fh / 16) pr -> (pr_starts pr = true -> rs = true) ->
+  ACC rs g c (process_recv_packet g c fh body pr).
 Proof.
-  intros [HO HS]. unfold process_recv_packet. cbv zeta.
+  intros [HO HS] Ht Hrs. unfold process_recv_packet. cbv zeta.
   destruct (_ <? _); [apply QR_ACC; q_auto3|]. destruct (negb _); [apply QR_ACC; q_leaf|].
   destruct (c_version c) eqn:Ev; try (now apply dispatch_recv_ACC).
-  assert (Hcon : forall v, ACC g c (recv_connect g (set_version c v) v pr)).
-  { intro v. apply (ACC_pre g c (set_version c v)); [reflexivity|]. apply recv_connect_ACC.
-    unfold OWN in *. conn_simpl_goal. rewrite (HS eq_refl) in *. now apply (own_any_version g _ _ _ _ _ _ (c_version c)). }
-  repeat match goal with |- ACC _ _ (if ?b then _ else _) => destruct b end; first [apply Hcon|apply QR_ACC; q_leaf].
+  assert (Hcon : forall v, fh / 16 = 1 -> ACC rs g c (recv_connect g (set_version c v) v pr)).
+  { intros v Hf. apply (ACC_pre rs g c (set_version c v)); [reflexivity|]. apply recv_connect_ACC.
+    - unfold OWN in *. conn_simpl_goal. rewrite (HS eq_refl) in *. now apply (own_any_version g _ _ _ _ _ _ (c_version c)).
+    - destruct pr as [p|e]; [|exact I]. cbn [pr_keeps pr_typed pr_starts] in *. intro Ef. apply Hrs. rewrite Ht, Hf, Ef. reflexivity. }
+  destruct (N.eqb_spec (fh / 16) 1) as [Hf|Hf]; [|apply QR_ACC; q_leaf].
+  repeat match goal with |- ACC _ _ _ (if ?b then _ else _) => destruct b end; first [now apply Hcon|apply QR_ACC; q_leaf].
 Qed.
+
+Definition oracle_typed (c : conn) (o : op) : Prop :=
+  match o with
+  | ORecv bytes pr => match feed (c_pb c) bytes with (FComplete hdr _, _, _) => pr_typed (hd 0 hdr / 16) pr | _ => True end
+  | _ => True
+  end.
 
 (* the calls that take identifiers into use have their own theorems (C08_acquire / C08_register / C16) *)
 Definition takes_ids (o : op) : bool :=
   match o with OAcquire | ORegister _ | ORestorePackets _ => true | _ => false end.
 
-Theorem step_accounts g c o : OWNU g c -> takes_ids o = false ->
+(* rs = true: any call; rs = false: a call that does not start a new session — no reset then *)
+Theorem step_accounts rs g c o : OWNU g c -> oracle_typed c o -> takes_ids o = false -> (starts_session o = true -> rs = true) ->
   match step g c o with
-  | Ok (c', e, _) => accp g (c_pid c) (c_pid c') (released e)
+  | Ok (c', e, _) => accp rs g (c_pid c) (c_pid c') (released e)
   | Panic _ => True
   end.
 Proof.
-  intros HU Ht. pose proof HU as [HO HS]. destruct o; cbn [step takes_ids] in *; try discriminate.
-  - pose proof (do_send_ACC g c p HO) as H. destruct (do_send g c p) as [[c' e]|]; cbn [bindr ACC] in *; [exact H|exact I].
+  intros HU Hor Ht Hrs. pose proof HU as [HO HS]. destruct o; cbn [step takes_ids starts_session oracle_typed] in *; try discriminate.
+  - pose proof (do_send_ACC rs g c p HO Hrs) as H. destruct (do_send g c p) as [[c' e]|]; cbn [bindr ACC] in *; [exact H|exact I].
   - unfold do_recv. destruct (feed (c_pb c) bytes) as [[r pb'] rest]. cbv zeta.
     assert (HU' : OWNU g (set_pb c pb')).
     { split; [apply (f8_own g c); [unfold F8; conn_simpl; repeat split|exact HO]|conn_simpl_goal; exact HS]. }
+    assert (Hrs' : pr_starts pr = true -> rs = true) by (destruct pr as [p|e]; [exact Hrs|discriminate]).
     destruct r; cbv beta iota; cbn [bindr].
-    + pose proof (process_recv_packet_ACC g (set_pb c pb') (hd 0 hdr) body pr HU') as H.
+    + pose proof (process_recv_packet_ACC rs g (set_pb c pb') (hd 0 hdr) body pr HU' Hor Hrs') as H.
       destruct (process_recv_packet _ _ _ _ _) as [[c1 e]|]; cbn [bindr ACC] in *; [exact H|exact I].
     + conn_simpl_goal. apply accp_refl.
     + pose proof (cancel_q (set_pb c pb')) as [P1 P2]. destruct (cancel_timers _) as [c1 e]. cbn [fst snd bindr] in *. conn_simpl.
       rewrite P1, released_app, P2. cbn. apply accp_refl.
   - pose proof (do_timer_QR c k) as H. destruct (do_timer c k) as [[c' e]|]; cbn [bindr QR] in *; [|exact I]. destruct H as [-> ->]. apply accp_refl.
-  - pose proof (do_closed_ACC g c) as H. destruct (do_closed c) as [[c' e]|]; cbn [bindr ACC] in *; [exact H|exact I].
+  - pose proof (do_closed_ACC rs g c) as H. destruct (do_closed c) as [[c' e]|]; cbn [bindr ACC] in *; [exact H|exact I].
   - unfold do_set_pingreq_interval. cbv zeta. own_split; cbn [bindr]; conn_simpl_goal; apply accp_refl.
   - conn_simpl_goal. apply accp_refl.
   - destruct b; conn_simpl_goal; apply accp_refl.
@@ -603,17 +653,27 @@ Proof.
   - conn_simpl_goal. apply accp_refl.
   - conn_simpl_goal. apply accp_refl.
   - conn_simpl_goal. apply accp_refl.
-  - destruct (release_if_used c id) as [[c' e]|] eqn:E; cbn [bindr]; [exact (release_if_used_acc g c id c' e E)|exact I].
-  - pose proof (do_erase_ACC g c id) as H. destruct (do_erase c id) as [[c' e]|]; cbn [bindr ACC] in *; [exact H|exact I].
+  - destruct (release_if_used c id) as [[c' e]|] eqn:E; cbn [bindr]; [exact (release_if_used_acc rs g c id c' e E)|exact I].
+  - pose proof (do_erase_ACC rs g c id) as H. destruct (do_erase c id) as [[c' e]|]; cbn [bindr ACC] in *; [exact H|exact I].
   - conn_simpl_goal. apply accp_refl.
   - apply accp_refl.
 Qed.
 
-(* read off: with a well-formed allocator before the call *)
-Corollary step_release_accounting g c o c' e r : OWNU g c -> takes_ids o = false -> step g c o = Ok (c', e, r) ->
+(* read off, for a call that starts no new session: exact accounting, no reset *)
+Corollary step_release_accounting g c o c' e r : OWNU g c -> oracle_typed c o -> takes_ids o = false -> starts_session o = false ->
+  step g c o = Ok (c', e, r) ->
+  NoDup (released e) /\ (forall id, In id (released e) -> is_used c id = true) /\
+  (forall id, is_used c' id = is_used c id && negb (inb id (released e))).
+Proof.
+  intros HU Hor Ht Hss Hs. pose proof (step_accounts false g c o HU Hor Ht ltac:(rewrite Hss; discriminate)) as H. rewrite Hs in H.
+  destruct (H (o_wf _ _ _ _ _ _ _ _ _ (proj1 HU))) as (_ & H1 & H2 & [H3|[H3 _]]); [|discriminate]. split; [exact H1|]. split; [exact H2|exact H3].
+Qed.
+(* ... and for a call that does: the same, or every identifier free *)
+Corollary step_release_accounting_any g c o c' e r : OWNU g c -> oracle_typed c o -> takes_ids o = false -> step g c o = Ok (c', e, r) ->
   NoDup (released e) /\ (forall id, In id (released e) -> is_used c id = true) /\
   ((forall id, is_used c' id = is_used c id && negb (inb id (released e))) \/ (forall id, is_used c' id = false)).
 Proof.
-  intros HU Ht Hs. pose proof (step_accounts g c o HU Ht) as H. rewrite Hs in H.
-  destruct (H (o_wf _ _ _ _ _ _ _ _ _ (proj1 HU))) as (_ & H1 & H2 & H3). split; [exact H1|]. split; [exact H2|exact H3].
+  intros HU Hor Ht Hs. pose proof (step_accounts true g c o HU Hor Ht (fun _ => eq_refl)) as H. rewrite Hs in H.
+  destruct (H (o_wf _ _ _ _ _ _ _ _ _ (proj1 HU))) as (_ & H1 & H2 & H3). split; [exact H1|]. split; [exact H2|].
+  destruct H3 as [H3|[_ H3]]; [now left|now right].
 Qed.
